@@ -14,6 +14,7 @@ import (
 
 	"github.com/cosmos/cosmos-sdk/codec"
 	sdk "github.com/cosmos/cosmos-sdk/types"
+	"github.com/cosmos/cosmos-sdk/types/query"
 
 	mttypes "mods.irisnet.org/modules/mt/types"
 
@@ -24,7 +25,7 @@ import (
 func init() {
 	Register(&Spec{
 		ID: "C15", Level: "exploration",
-		Rule: "cases = chains driven by the MT director (issue-class / mint new or existing / edit / transfer incl. to self / burn / transfer-class by owners and strangers, amounts over the whole uint64 range incl. balance+1, 2^64-1 and sums that overflow); after every successful tx the complete MT state (classes, tokens, supplies, raw balance store walk) is compared with an arbitrary-precision reference ledger; non-trivial = successful tx or targeted hostile rejection; distinct = distinct (op, actor role, amount class, outcome); since rounds 11-14: genesis battery (balances and supplies that agree, disagree, or agree only modulo 2^64), the owner addressing the id generated next, recipients in upper case, restart from the chain's own export in every fourth chain; since rounds 15-19: a mint into the class id the generator hands out next; snapshot panics judged (query-panicked)",
+		Rule: "cases = chains driven by the MT director (issue-class / mint new or existing / edit / transfer incl. to self / burn / transfer-class by owners and strangers, amounts over the whole uint64 range incl. balance+1, 2^64-1 and sums that overflow); after every successful tx the complete MT state (classes, tokens, supplies, raw balance store walk) is compared with an arbitrary-precision reference ledger; non-trivial = successful tx or targeted hostile rejection; distinct = distinct (op, actor role, amount class, outcome); since rounds 11-14: genesis battery (balances and supplies that agree, disagree, or agree only modulo 2^64), the owner addressing the id generated next, recipients in upper case, restart from the chain's own export in every fourth chain; since rounds 15-19: a mint into the class id the generator hands out next; snapshot panics judged (query-panicked); the balances listing walked in pages of two",
 		Assume: []string{"a failed tx leaves no trace because BaseApp drops its branch"},
 		Cases:  func(t string) int { return tierN(t, 16, 48) },
 		Run:    runMT,
@@ -373,8 +374,53 @@ func (w *mtWorkload) snapshot(ctx sdk.Context) *mtSnap {
 	return s
 }
 
+// pagedBalances: every eighth block the balances listing of every (class, holder) of the reference model is read once
+// in one large page and once in pages of two entries by offset; the pages put together must be the large page, entry by
+// entry, and the amounts listed must add up to the holder's balances in the reference.
+func (w *mtWorkload) pagedBalances(br *rig.BlockRecord) {
+	if br.Height%8 != 0 {
+		return
+	}
+	k, ctx := w.r.K.MT, w.r.Ctx()
+	for cid, c := range w.model {
+		holders := map[string]bool{}
+		for _, t := range c.Toks {
+			for a := range t.Bal {
+				holders[a] = true
+			}
+		}
+		for _, a := range sortedKeys(holders) {
+			full, err := k.Balances(ctx, &mttypes.QueryBalancesRequest{Owner: a, DenomId: cid, Pagination: &query.PageRequest{Limit: 1000}})
+			if err != nil || len(full.Balance) < 3 {
+				continue
+			}
+			var paged []mttypes.Balance
+			for off := uint64(0); off < uint64(len(full.Balance))+2; off += 2 {
+				pg, err := k.Balances(ctx, &mttypes.QueryBalancesRequest{Owner: a, DenomId: cid, Pagination: &query.PageRequest{Offset: off, Limit: 2}})
+				if err != nil {
+					break
+				}
+				paged = append(paged, pg.Balance...)
+			}
+			w.run.Eval(1)
+			w.run.Count("balances-listing-walked-in-pages-of-two", 1)
+			same := len(paged) == len(full.Balance)
+			for i := 0; same && i < len(paged); i++ {
+				same = paged[i].MtId == full.Balance[i].MtId && paged[i].Amount == full.Balance[i].Amount
+			}
+			if !same {
+				w.run.Violation("C15:mt:paged-balances-listing-differs-from-the-listing-in-one-page", map[string]any{"height": br.Height, "class": cid, "holder": a, "one_page": fmt.Sprint(full.Balance), "pages_of_two": fmt.Sprint(paged)},
+					"balances of %s in class %s at height %d: read in pages of two entries the listing is %v, in one page %v", a, cid, br.Height, paged, full.Balance)
+			}
+		}
+	}
+}
+
 func (w *mtWorkload) Observe(br *rig.BlockRecord) {
 	judgeSnapPanics(w.run, w.r, "C15:mt", false)
+	if !w.quiet {
+		defer w.pagedBalances(br)
+	}
 	if w.quiet {
 		// on a shared chain there are no MT snapshots per tx: resynchronise the generator's view from the chain
 		w.model = w.snapshot(w.r.Ctx()).Classes
